@@ -211,6 +211,13 @@ def exec_case(case):
             what += f" (after an earlier invocation with {case['before']})"
         with toasty_call("load", what):
             coll = build_collection(case, paths, {})
+        if case.get("abandoned_scan"):
+            # a first look at the collection that stops after its first entry (an early `break`, `next(iter(...))`)
+            with toasty_call("descriptions", what + " (abandoned first scan)"):
+                it = iter(coll.descriptions() if case["abandoned_scan"] == "descriptions" else coll.images())
+                next(it, None)
+                del it
+            what += f" (after an abandoned scan of its {case['abandoned_scan']})"
         with toasty_call("descriptions", what):
             descs = list(coll.descriptions())
         with toasty_call("images", what):
@@ -357,6 +364,8 @@ def strat(draw, tier):
         if draw(st.booleans()):
             before["key_sel"] = {"kind": "scalar", "value": draw(st.sampled_from(["A", "B"]))}
         case["before"] = before
+    if case.get("route") != "tile_fits" and draw(st.integers(0, 4)) == 0:
+        case["abandoned_scan"] = draw(st.sampled_from(["descriptions", "images"]))
     return case
 
 
